@@ -14,11 +14,12 @@ from vf import gen, x36_item
 from vf.core import VERIF, Reject
 
 RULE = (
-  "case = program of 2-4 items run one after another in one process (which also carries the history of the worker's earlier cases); an item = (model, options, capacities, nworld, state, nstep<=3). "
-  "Items are drawn so that consecutive ones collide on the keys of MJWarp's process-global caches while differing in meaning: the same model compiled with different cone / solver / jacobian / integrator / "
-  "NATIVECCD / MULTICCD flags, the same sizes with different geom-type inventories, the same model with other capacities or world counts, and contact scenes with different collision-pair sets. "
+  "case = program of 32-34 items run one after another in one process (which also carries the history of the worker's earlier cases); an item = (model, options, flags, Model-only options, capacities, nworld, state, nstep<=3). "
+  "The last item is the subject; the items before it are one-dimension variants of it (exactly one of: integrator / solver / cone / jacobian, one of 18 enable/disable flags incl. SLEEP, ISLAND, NATIVECCD, GRAVITY, "
+  "broadphase type, broadphase filter, warn_overflow, fluid, nworld, nconmax, njmax, geom-type inventory, state) so that they agree with the subject on every other component of MJWarp's process-global cache keys, "
+  "plus optionally an unrelated item and a variant of a variant. "
   "Oracle: the last item's result (qpos, qvel, act, qacc, warmstart, sensordata, qfrc_constraint, time, overflow, nefc, solver_niter and the sorted contact list) in-sequence is bit-identical to the same item run "
-  "alone in a fresh Python process; evaluation = one program; non-trivial = the last item shares its model or its sizes with an earlier item of the program while differing in options/inventory/capacities"
+  "alone in a fresh Python process; evaluation = one program; non-trivial = the subject produced contacts or constraint rows (every program runs all 31 one-dimension variants before it)"
 )
 ASSUMPTIONS = [
   "CPU device: kernels are deterministic, so bitwise equality across processes is the oracle",
@@ -26,7 +27,22 @@ ASSUMPTIONS = [
 ]
 BUDGET = {"quick": dict(examples=64, seconds=150, workers=16), "thorough": dict(examples=3000, seconds=2400, workers=16)}
 
-_FLAGSETS = [{}, {"nativeccd": "disable"}, {"multiccd": "disable"}, {"nativeccd": "disable", "multiccd": "disable"}, {"island": "disable"}, {"energy": "enable"}, {"warmstart": "disable"}]
+# flags toggled one at a time (name, the non-default value)
+_FLAGS = [("nativeccd", "disable"), ("multiccd", "disable"), ("island", "disable"), ("energy", "enable"), ("warmstart", "disable"), ("sleep", "enable"), ("gravity", "disable"),
+          ("contact", "disable"), ("constraint", "disable"), ("filterparent", "disable"), ("frictionloss", "disable"), ("limit", "disable"), ("equality", "disable"),
+          ("eulerdamp", "disable"), ("refsafe", "disable"), ("actuation", "disable"), ("damper", "disable"), ("spring", "disable")]
+_FLAGSETS = [{}, {}, {"sleep": "enable"}, {"sleep": "enable"}, {"sleep": "enable"}, {"nativeccd": "disable"}, {"island": "disable"}, {"sleep": "enable", "island": "disable"}, {"warmstart": "disable"}, {"energy": "enable"}]
+# options that exist only on mjw.Model (set after put_model) or feed kernel specialisation: values menu per dimension (None = default)
+_MOPT = dict(
+  broadphase=[None, 0, 1, 2],  # NXN / SAP_TILE / SAP_SEGMENTED
+  broadphase_filter=[None, 1, 3, 7, 31],
+  warn_overflow=[None, False],
+  fluid=[None, [1.2, 0.0], [20.0, 0.3]],  # option density / viscosity
+)
+_OPT = dict(integrator=["Euler", "implicitfast", "implicit", "RK4"], solver=["Newton", "CG"], cone=["pyramidal", "elliptic"], jacobian=["dense", "sparse"])
+_SCENE_TYPES = [["box"], ["sphere", "box"], ["box", "capsule"], ["sphere", "capsule", "box"], ["box", "mesh"], ["ellipsoid", "cylinder", "box"]]
+_GEOM_MENUS = [["sphere", "capsule", "box"], ["box"], ["sphere"], ["capsule", "box"]]
+_DIMS = [f"opt.{k}" for k in _OPT] + [f"flag.{k}" for k, _ in _FLAGS] + [f"mopt.{k}" for k in _MOPT] + ["nworld", "nconmax", "njmax", "inventory", "state"]
 
 
 def _item(scene):
@@ -39,41 +55,68 @@ def _item(scene):
     state_seed=st.integers(0, 10**6),
     nstep=st.integers(1, 3),
     scene=st.just(scene),
+    asleep=st.sampled_from([0.0, 0.5, 1.0]),  # with the sleep flag on: fraction of islands / unconstrained trees that start asleep
+    mopt=st.fixed_dictionaries({k: st.sampled_from([None] + v) for k, v in _MOPT.items()}),
   )
   if scene:
-    base["cfg"] = gen.scene_strategy(types=st.sampled_from([["box"], ["sphere", "box"], ["box", "capsule"], ["sphere", "capsule", "box"], ["box", "mesh"], ["ellipsoid", "cylinder", "box"]]), nmax=5)
+    base["cfg"] = gen.scene_strategy(types=st.sampled_from(_SCENE_TYPES), nmax=5)
   else:
-    base["cfg"] = gen.rich_cfg(nroot=st.integers(1, 3), actuators=st.integers(0, 2), geom_menu=st.sampled_from([["sphere", "capsule", "box"], ["box"], ["sphere"], ["capsule", "box"]]))
+    base["cfg"] = gen.rich_cfg(nroot=st.integers(1, 3), actuators=st.integers(0, 2), act_menu=st.sampled_from([["motor", "position"], ["adhesion", "motor"], ["general", "damper"]]), geom_menu=st.sampled_from(_GEOM_MENUS),
+                               sleep_policy=st.sampled_from([None, ["auto", "never", "allowed", "init"], ["init", "allowed"]]))
   return st.fixed_dictionaries(base)
+
+
+def _other(draw, menu, cur):
+  alt = [v for v in menu if v != cur]
+  return draw(st.sampled_from(alt)) if alt else cur
+
+
+def _flip(draw, base, dim, scene):
+  """The same item with exactly one configuration dimension changed: the two then agree on every other component of any cache key."""
+  it = json.loads(json.dumps(base))
+  kind, _, name = dim.partition(".")
+  if kind == "opt":
+    it["opt"][name] = _other(draw, _OPT[name], it["opt"][name])
+  elif kind == "flag":
+    val = dict(_FLAGS)[name]
+    if name in it["flags"]:
+      del it["flags"][name]
+    else:
+      it["flags"][name] = val
+  elif kind == "mopt":
+    it["mopt"][name] = _other(draw, _MOPT[name], it["mopt"][name])
+  elif dim == "nworld":
+    it["nworld"] = _other(draw, [1, 2, 3], it["nworld"])
+  elif dim == "nconmax":
+    it["nconmax"] = _other(draw, [40, 120], it["nconmax"])
+  elif dim == "njmax":
+    it["njmax"] = _other(draw, [120, 400], it["njmax"])
+  elif dim == "inventory":  # same generator seed (same tree and sizes), other geom types / condims
+    if scene:
+      it["cfg"]["types"] = _other(draw, _SCENE_TYPES, it["cfg"]["types"])
+    else:
+      it["cfg"]["geom_menu"] = _other(draw, _GEOM_MENUS, it["cfg"]["geom_menu"])
+  elif dim == "state":
+    it["state_seed"] = it["state_seed"] + 1
+    it["nstep"] = 1 + it["nstep"] % 3
+  it["kind"] = "flip:" + dim
+  return it
 
 
 @st.composite
 def _program(draw):
+  """[unrelated item]? + one one-dimension variant per dimension (31, in a drawn order) of the subject + the subject itself (last; the item that is compared with a fresh process)."""
   scene = draw(st.booleans())
-  first = draw(_item(scene))
-  items = [first]
-  n = draw(st.integers(2, 4))
-  for _ in range(n - 1):
-    kind = draw(st.sampled_from(["same-model-other-options", "same-model-other-options", "same-sizes-other-inventory", "same-model-other-capacities", "fresh"]))
-    prev = items[-1]
-    new = draw(_item(scene))
-    if kind == "same-model-other-options":
-      new = dict(new, cfg=prev["cfg"], nconmax=prev["nconmax"], njmax=prev["njmax"], nworld=prev["nworld"])
-    elif kind == "same-sizes-other-inventory":
-      # same generator seed (same tree and sizes), other geom types / condims
-      cfg = dict(prev["cfg"])
-      if scene:
-        cfg["types"] = new["cfg"]["types"]
-        cfg["condim_menu"] = new["cfg"]["condim_menu"]
-      else:
-        cfg["geom_menu"] = new["cfg"]["geom_menu"]
-        cfg["condim_menu"] = new["cfg"]["condim_menu"]
-      new = dict(new, cfg=cfg, nconmax=prev["nconmax"], njmax=prev["njmax"], nworld=prev["nworld"])
-    elif kind == "same-model-other-capacities":
-      new = dict(new, cfg=prev["cfg"], opt=prev["opt"], flags=prev["flags"])
-    new["kind"] = kind
-    items.append(new)
-  items[0]["kind"] = "first"
+  subject = draw(_item(scene))
+  dims = draw(st.permutations(_DIMS))  # every dimension is flipped once: the fresh process is the expensive part, in-process variants are cheap
+  items = []
+  if draw(st.booleans()):
+    items.append(dict(draw(_item(scene)), kind="unrelated"))
+  for dname in dims:
+    items.append(_flip(draw, subject, dname, scene))
+  if draw(st.booleans()) and len(items) >= 2:  # a variant of a variant: two dimensions away from the subject
+    items.insert(draw(st.integers(0, len(items) - 1)), _flip(draw, items[-1], draw(st.sampled_from(_DIMS)), scene))
+  items.append(dict(subject, kind="subject"))
   return dict(items=items)
 
 
@@ -118,6 +161,8 @@ def check(case, rec):
         sig=f"history:{k.split('.')[0]}", field=k, maxdiff=diff,
       )
   kinds = [i["kind"] for i in items]
-  rec.cls(f"last:{kinds[-1]}", f"scene:{items[-1]['scene']}", f"len:{len(items)}", f"nacon>0:{int(last['nacon'][0]) > 0}", f"nefc>0:{int(last['nefc'].max()) > 0}")
-  if kinds[-1] != "fresh":
+  rec.cls(f"scene:{items[-1]['scene']}", f"len:{len(items)}", f"nacon>0:{int(last['nacon'][0]) > 0}", f"nefc>0:{int(last['nefc'].max()) > 0}")
+  for k in kinds[:-1]:
+    rec.cls("earlier:" + k.split(".")[0])
+  if int(last["nacon"][0]) > 0 or int(last["nefc"].max()) > 0:
     rec.nt()
